@@ -438,7 +438,9 @@ def filter_citations(citations: List[CitationBase]) -> List[CitationBase]:
 
         filtered_citations.append(citation)
 
-    return filtered_citations
+    # Overlaps are resolved by full span, but callers rely on citations being
+    # ordered as they appear in the text:
+    return sorted(filtered_citations, key=lambda citation: citation.span())
 
 
 joke_cite: List[CitationBase] = [
